@@ -5,6 +5,7 @@ package props
 
 import (
 	"fmt"
+	"reflect"
 	"strings"
 
 	jd "github.com/josephburnett/jd/v2"
@@ -141,6 +142,72 @@ func withoutNull(s []any) []any {
 		}
 	}
 	return out
+}
+
+// sharedContainer walks values (jd nodes, diffs, slices of them) by
+// reflection and reports the first map or non-empty slice that is reached at
+// two different places: storage shared between two positions means that an
+// in-place edit of one of them changes the other.
+func sharedContainer(roots ...any) string {
+	seen := map[uintptr]string{}
+	var walk func(v reflect.Value, where string) string
+	walk = func(v reflect.Value, where string) string {
+		for v.Kind() == reflect.Interface || v.Kind() == reflect.Ptr {
+			if v.IsNil() {
+				return ""
+			}
+			v = v.Elem()
+		}
+		switch v.Kind() {
+		case reflect.Map:
+			if v.IsNil() {
+				return ""
+			}
+			p := v.Pointer()
+			if at, dup := seen[p]; dup {
+				return "one object is held at " + at + " and at " + where
+			}
+			seen[p] = where
+			it := v.MapRange()
+			for it.Next() {
+				if m := walk(it.Value(), where+"."+fmt.Sprint(it.Key().Interface())); m != "" {
+					return m
+				}
+			}
+		case reflect.Slice:
+			if v.Len() == 0 {
+				return ""
+			}
+			if v.Type().Elem().Kind() == reflect.Uint8 {
+				return "" // strings of bytes (jsonNull) carry no nodes
+			}
+			p := v.Pointer()
+			if at, dup := seen[p]; dup {
+				return "one array is held at " + at + " and at " + where
+			}
+			seen[p] = where
+			for i := 0; i < v.Len(); i++ {
+				if m := walk(v.Index(i), fmt.Sprintf("%s[%d]", where, i)); m != "" {
+					return m
+				}
+			}
+		case reflect.Struct:
+			for i := 0; i < v.NumField(); i++ {
+				if v.Type().Field(i).IsExported() {
+					if m := walk(v.Field(i), where+"."+v.Type().Field(i).Name); m != "" {
+						return m
+					}
+				}
+			}
+		}
+		return ""
+	}
+	for i, r := range roots {
+		if m := walk(reflect.ValueOf(r), fmt.Sprintf("#%d", i)); m != "" {
+			return m
+		}
+	}
+	return ""
 }
 
 // Dump is a type-accurate deep dump of jd values (concrete dynamic types,
